@@ -34,6 +34,7 @@ RULE += (' Also: enters failing with a BaseException that is not an Exception.')
 RULE += (' Also: managers whose exit is a staticmethod / classmethod.')
 RULE += (' Also: callbacks (plain and async def) registered without any arguments and returning a true value; plain callbacks handing back a future-like (non-coroutine) awaitable.')
 RULE += (' Also: exit-only objects (no matching enter) pushed, also callable ones.')
+RULE += (' Also: pushed exits declared with a single catch-all parameter (handed the three exception details like any other).')
 RULE += (' Also: a synchronous exit raising StopIteration, against nested statements written in one frame.')
 RULE += (" Also: subclasses of the library's nullcontext that override their exit.")
 ASSUMPTIONS = ["nested async with/with statements of the running interpreter are the reference for routing",
@@ -341,7 +342,13 @@ def mk_entry(kind, beh, i, log, susp, choice, shared=None):
                 await Suspend(("exit", i), susp)
             return exit_logic(et, ev, tb)
 
-        return aexit
+        async def aexit_star(*details):
+            # (declared with ONE catch-all parameter: it is handed the three exception details all the same)
+            if susp:
+                await Suspend(("exit", i), susp)
+            return exit_logic(*details)
+
+        return aexit_star if i % 2 else aexit
     if kind == "wpush":
         async def aexit2(et, ev, tb):
             if susp:
@@ -350,7 +357,7 @@ def mk_entry(kind, beh, i, log, susp, choice, shared=None):
 
         return lambda et, ev, tb: aexit2(et, ev, tb)
     if kind == "spush":
-        return exit_logic
+        return (lambda *details: exit_logic(*details)) if i % 2 else exit_logic
     if kind == "wcb":
         class Job:
             def __init__(self, args, kw):
